@@ -6,6 +6,7 @@ from props import common as cm
 def run(tier):
     r = Run('C11', tier, level='proof')
     cm.run_kernels(r, cm.kernels('c_downstream', 'c_accumulate', 'c_accumulate#acyclic'))
+    cm.run_monitors(r, ['mon_accumulate'])
     r.explanation = ('Engine C on the real c_accumulate: for acyclic grids (height-function precondition) every draining cell ends with its initial value plus '
                      'the field summed over all cells that reach it (ghost functions reaches / upsum, lemmas by induction on the height), terminal cells hold nodata, '
                      'input grids are not in the frame; cyclic grids: memory safety and termination only')
